@@ -9,6 +9,7 @@ ALL = ['C%02d' % i for i in range(1, 21)]
 TECH_GIT = ('bounded symbolic execution of the real workflow functions on a symbolic git repository '
             '(closure bit-vector model of the git binary behind Repository.cmd), z3 query per monitor after each remote update; '
             'counterexamples and sampled paths replayed on a real repository with /usr/bin/git')
+HIST = (' Histories (DESIGN 11): the monitors also stay installed while complete jobs (BertE.process -> handle_pull_request / handle_merge_queues, each from a fresh clone of what the previous one left) are chained on one symbolic repository: evaluate, source pushed, evaluate, queue evaluation, evaluate; two pull requests queued one behind the other.')
 TECH = 'bounded symbolic execution of the real functions (own forking executor on z3 proxies), per-path solver query against an oracle formula; counterexamples replayed concretely'
 
 CHECKS = {
@@ -18,7 +19,7 @@ CHECKS = {
              '(merge_integration_branches, robust/octopus/consecutive merge, push) routines run on a repository whose commit '
              'graph (ancestor-closure bit-vectors), ref tips, build statuses and merge conflicts are symbolic, assuming only '
              'inclusion before the job; after every observable remote update z3 decides inclusion for all graphs on the path. '
-             'Bounded: <= 18 pre-existing commits, <= 2 queued PRs, 1-4 destinations, enumerated cascade shapes.',
+             'Bounded: <= 18 pre-existing commits, <= 2 queued PRs, 1-4 destinations, enumerated cascade shapes.' + HIST,
         note='Trusts z3, the symgit model of the git binary (every run replays sampled path witnesses on a real repository '
              'with /usr/bin/git and compares outcome, refs and ancestry) and the assumption that only the encoded routines write '
              'destination branches. Counterexamples are replayed on real git before they are reported.',
@@ -27,15 +28,20 @@ CHECKS = {
         text='Same symbolic runs as C01 with the all-or-none monitor evaluated after every observable remote update (each ref of a '
              'non-atomic push, the whole transaction of an atomic one), with a symbolic per-ref refusal by the server inside each '
              'push; crash points need no enumeration because the remote state at every boundary is checked for all graphs. '
-             'Because the pre-state of the queue merge is arbitrary, every state a crashed add_to_queue can leave is included.',
-        note='Partial: content equality of the recovered run with the uninterrupted run is not decided (the closure model has no '
-             'file contents). Assumes queued PRs each added a commit of their own on each version (independent PRs).',
+             'Because the pre-state of the queue merge is arbitrary, every state a crashed add_to_queue can leave is included. '
+             'Recovery (DESIGN 11): on bounded histories of complete jobs the script is run uninterrupted and again with a crash at a '
+             'solver-chosen boundary (before each git push / host write of each job), the event is re-delivered to a fresh server '
+             '(with the documented queue reset when the queues are reported out of order) and the content of every destination at '
+             'the end must equal the uninterrupted run.',
+        note='Content = the ancestor closure without the commits made by conflict-free merges (no file contents); conflicts and '
+             'build results are functions of that content in the recovery histories. Recovery is bounded to 2 targets (thorough 3), '
+             '1-2 PRs, crash between operations (refusals of single refs inside a push are the single-job runs). Assumes independent PRs.',
         design='3/C02', technique=TECH_GIT),
     'C03': dict(
         text='Queue merges from an arbitrary symbolic repository with symbolic build statuses: whenever a destination moves, its new '
              'tip must be a commit whose status is SUCCESSFUL (tip identity is tracked: a fast-forward keeps the built commit, a merge '
              'commit is a fresh, never-built commit) unless force-merged. Direct merges in skip_queue_when_not_needed mode run the real '
-             'check_in_sync, check_build_status, build_queue_collection, is_needed and merge_integration_branches in the handler order.',
+             'check_in_sync, check_build_status, build_queue_collection, is_needed and merge_integration_branches in the handler order.' + HIST,
         note='Cut: update_integration_branches (needs git log) - paths that are not in sync are dropped. The longest-green-prefix '
              'clause is decided in C05.',
         design='3/C03', technique=TECH_GIT),
@@ -69,7 +75,7 @@ CHECKS = {
         text='In the symbolic runs of C01/C02 every remote update is monitored: destinations move only by fast-forward '
              '(closure inclusion), no ref outside w/, q/, tmp/ and the destinations is updated or deleted; before each push a '
              'symbolic third-party action (new branch, commit pushed to a source branch, source branch rewound) is applied to '
-             'the server. Reproduced findings about `push --all --prune` are listed in known_findings.json.',
+             'the server. Reproduced findings about `push --all --prune` are listed in known_findings.json.' + HIST,
         note='Partial: true concurrency inside git is not modelled (the third-party action is serialised before the push); '
              'delete-branch job and Branch.remove guard are checked in C20.',
         design='3/C08', technique=TECH_GIT),
@@ -160,9 +166,13 @@ CHECKS['C10'] = dict(
          'message kinds) the real handle_pull_request is evaluated three times in a row up to the clone, with the real Reactor, '
          'command handlers, notify_user/_send_comment/find_comment and the live dont_repeat_if_in_history attributes: no message '
          'twice in a row, a command executed by one evaluation is not executed by the next, the third evaluation posts nothing; '
-         'option state does not leak between jobs.',
-    note='Partial: _reset is a stub raising what the real one raises; convergence over repository states and independence from '
-         'earlier jobs beyond option defaults are not decided.',
+         'option state does not leak between jobs. Convergence over repository states (DESIGN 11): on bounded histories of complete '
+         'jobs on the symbolic repository (no-queue / queue / skip-queue; after queueing, after a source push, after a decline, commit '
+         'events on source and integration tips, another held pull request evaluated in between) the same event is delivered five '
+         'times: the 4th and 5th job make no ref update and no host write, no message is posted twice in a row, and a freshly started '
+         'server gives the same outcome, ref updates and host writes as the long-lived one.',
+    note='Partial: _reset is a stub in the comment-history part; the repository-state part is bounded to the listed histories '
+         '(2 targets, 1-2 PRs, <= 9 jobs; git log answers empty).',
     design='3/C10', technique=TECH)
 CHECKS['C15'] = dict(
     text='The real commands._reset (reset and force_reset) with get_integration_branches, get_commit_diff, Commit.parents/author, '
@@ -183,8 +193,10 @@ CHECKS['C19'] = dict(
          'real handle_declined_pull_request declines exactly the open integration PRs of the parent and deletes exactly its '
          'integration branches; (c) the parent id is the first digit run of the rendered description (z3 string query on the '
          'live template) and commit events on w/ or source tips resolve to the parent PR.',
-    note='Partial: orders and multiplicities of events over whole histories are not explored (each routine is checked as a step '
-         'from an arbitrary state). Name injectivity comes from C18.',
+    note='Orders and multiplicities of events are explored on bounded histories of complete jobs (DESIGN 11): every order of two '
+         'events among PR event / commit event on the source tip / commit event on the integration tip followed by decline and '
+         're-evaluation, two PRs merged by one queue evaluation; an event on the integration PR or on an integration / source commit is '
+         'compared with the event on the parent from the same state. Longer histories are outside. Name injectivity comes from C18.',
     design='3/C19', technique=TECH)
 CHECKS['C20'] = dict(
     text='The real create_branch, delete_branch, delete_queues and rebuild_queues jobs run on a symgit repository (symbolic commit '
